@@ -669,6 +669,9 @@ impl<'a, S: Clone + Bits> Annot<'a, S> {
                 start_valid = problems[i].starts.iter().any(|st| self.g.valid(st));
                 start_valid_all = problems[i].starts.iter().all(|st| self.g.valid(st));
                 start_inb = problems[i].starts.iter().all(|st| self.g.in_bounds(st));
+            } else {
+                // an empty start list: any error is a fine answer, InvalidStartState included
+                start_valid_all = false;
             }
         }
         if let Outcome::Path(p) = &rec.outcome {
@@ -804,7 +807,10 @@ impl<'a, S: Clone + Bits> Annot<'a, S> {
                 Outcome::Path(p) => p.first().and_then(|f| problems[i].starts.iter().find(|st| st.bits() == f.bits()).cloned()),
                 _ => None,
             };
-            if let Some(st) = from_path.or(problems[i].start.clone()) {
+            // (no path: judge from the first listed start the checker accepts - with an invalid first start
+            // the pinned planner has already refused, a multi-start one would have queried from this one)
+            let first_valid = problems[i].starts.iter().find(|st| self.g.valid(st)).cloned();
+            if let Some(st) = from_path.or(first_valid).or(problems[i].start.clone()) {
                 for (m, _) in &road {
                     let d = self.g.dist(&st, m);
                     let inr = in_radius(d, self.params.radius, self.g.mode() == "lattice");
